@@ -18,7 +18,7 @@ keys come from get_enc_key/get_dec_key of the same session;
 (d) Session::is_for_rx's result depends on local_sess_id, peer_addr, peer_nodeid, reserved and on the encryption
 kind of both the session and the header; dec_key/enc_key readers are confined.
 """
-CLAUSES = ['a: state touched only after decode success', 'b: AAD = serialized plain header', 'c: nonce = flags|counter|source node, keys of that session',
+CLAUSES = ['e: header writer/reader tables agree; group counter state only after authentication', 'a: state touched only after decode success', 'b: AAD = serialized plain header', 'c: nonce = flags|counter|source node, keys of that session',
            'd: session selection depends on all discriminators']
 NOT_DECIDED = ['that every header bit is covered by the tag (AES-CCM property)', 'rejection of each single-bit flip', 'byte-level round trip (see C17)']
 MIN_OBLIGATIONS = {'q': 25, 'd': 20, 'r': 20}
@@ -170,3 +170,16 @@ def check(R):
         for fld in ('dec_key', 'enc_key'):
             R.writers_confined('P1', f'{fld}:{SESS}', {SESS + '::new', SESS + '::init', SESS + '::update', SESS + '::upgrade_fabric_idx',
                                'transport::session::Sessions::get_or_create_for_group_rx', 'transport::session::Sessions::get_or_create_for_group_tx'}, min_sites=0)
+
+    # ---- e --------------------------------------------------------------------
+    with R.clause('e'):
+        from C17 import codec_agreement
+        PHh = 'transport::plain_hdr::PlainHdr'
+        PRr = 'transport::proto_hdr::ProtoHdr'
+        codec_agreement(R, PHh + '::encode', PHh + '::decode', PHh, 6)
+        codec_agreement(R, PRr + '::encode', PRr + '::decrypt_and_decode', PRr, 6)
+        if groups:
+            gr = R.body('transport::session::Sessions::get_or_create_for_group_rx')
+            R.cut('P2', gr, 'touch the per-sender group counter state', call_bbs(gr, 'transport::dedup::GroupCtrStore::post_recv'), 'the message authenticated under an operational group key',
+                  lambda: R.call_guard(gr, 'transport::session::Sessions::try_group_decrypt'))
+
